@@ -480,6 +480,10 @@ def p4(rep, w):
                     if g[0].endswith('::ObjHashMap') and strip_generics(cn).rsplit('::', 1)[-1] in KEYED_MAP_OPS + ('extend',) and \
                             x in ('yarel::<value::Value as std::cmp::PartialEq>::eq', 'yarel::<value::Value as std::hash::Hash>::hash'):
                         continue
+                    if g[0].endswith('::ObjHashMap') and _keyed_wrapper(w, x):
+                        # a method of the map object that only wraps keyed operations on its own table (insert / remove that also keep a
+                        # counter): like the keyed operation itself, it runs == / hash of keys only
+                        continue
                     if g[0].endswith('::ObjHashMap') and _closure_over_validated_keys(w, f, x, direct):
                         # a closure of this function that can only see values which validate_hash_map_key accepted (an error message quoting
                         # the key): a hashable value is not and does not contain a map (C12 H1 / H2), so showing it borrows no ObjHashMap
@@ -501,6 +505,17 @@ def p4(rep, w):
     for k in exc:
         if k not in used:
             r.note('table entry no longer needed: %s' % k)
+
+
+def _keyed_wrapper(w, x):
+    g = w.fns.get(x)
+    if g is None or g.kind == 'Closure' or g.impl_self is None or g.crate.ty(g.impl_self).get('n') != 'yarel::object::ObjHashMap':
+        return False
+    for _, t in g.calls(only_normal=False):
+        n = callee_name(t) or ''
+        if not n.startswith(('std::', 'core::', 'alloc::', 'hashbrown::')):
+            return False
+    return True
 
 
 def _closure_over_validated_keys(w, f, x, direct):
